@@ -26,8 +26,8 @@ sink spells a null / missing BY value, so group counts do not add up to COUNT.
 (i) a PER bucket that starts before 1970 keeps its identity through the coordinator: the shards emit the bucket start as a signed integer; AggregateStreamMerger::parse_aggregate_row reads a negative
 Int64 / Timestamp bucket through a bit-preserving cast and does not send it through scalar_to_u64 (whose None for a negative value is the 'no bucket' key: all pre-1970 buckets would merge into null).
 """
-FLOOR = 14
-REQUIRED = ["C09.a1", "C09.a2", "C09.a3", "C09.b", "C09.c", "C09.d", "C09.e", "C09.f", "C09.g", "C09.h", "C09.i", "C09.j", "C09.k", "C09/C07.h"]
+FLOOR = 16
+REQUIRED = ["C09.a1", "C09.a2", "C09.a3", "C09.b", "C09.c", "C09.d", "C09.e", "C09.f", "C09.g", "C09.h", "C09.i", "C09.j", "C09.k", "C09.l", "C09.m", "C09/C07.h"]
 
 
 def run(ctx):
@@ -433,3 +433,40 @@ def run(ctx):
                 bad.append(("since-filter-dropped-by-shape", "QueryPlan::new drops a filter group of an aggregate query without comparing its value with the command's SINCE literal: an explicit WHERE <time field> >= x of the user is dropped too (its column is then not loaded and segment rows fail the condition)", sp(C, 0)))
         return bad
     ctx.run("C09.k", "K7 PROV", "QueryPlan::new (aggregate: implicit SINCE filter)", "only the filter that SINCE added is removed for an aggregate", k_)
+
+    def l_(inst):
+        """`an aggregate equals a fold over the selection`: SINCE (with USING) is part of the selection. QueryPlan::new takes the filter
+        SINCE added out of the plan again when the query aggregates, and nothing re-applies it (the sink uses the time field for the
+        bucket key only). C09.k makes sure nothing ELSE is dropped; this instance records that the SINCE filter itself is."""
+        bad = []
+        q = F.fn("QueryPlan::new")
+        ap = [c for c in q.calls if not c.cleanup and c.nname.endswith("AggregatePlan::from_command")]
+        retain = [c for c in q.calls if not c.cleanup and c.nname.endswith("Vec::retain")]
+        if not ap:
+            raise AnchorMissing("AggregatePlan::from_command in QueryPlan::new")
+        inst.sites = [sp(q, c.bb) for c in ap + retain]
+        for r in retain:
+            # the retain runs on the `is an aggregate` arm
+            if any(q.dominates_edge((a_.bb, a_.to), r.bb) for a_ in ap):
+                bad.append(("aggregate-drops-since-filter", "QueryPlan::new removes the SINCE time filter from the plan of an aggregate query and no later stage applies it: the aggregate folds events the selection excludes", sp(q, r.bb)))
+                break
+        return bad
+    ctx.run("C09.l", "K4 EFFECT", "QueryPlan::new (aggregate)", "SINCE restricts what an aggregate folds", l_)
+
+    def m_(inst):
+        """COUNT <field> counts the events whose field is not null. The aggregate operators read a string column through a ColumnValues
+        that has no null slot for strings; ColumnConverter::create_string_column writes a null as the empty string, which CountField
+        then counts."""
+        bad = []
+        c = F.fn("ColumnConverter::create_string_column")
+        sw = enum_switches_on(c, lambda L: True, r"ScalarValue$")
+        if not sw:
+            raise AnchorMissing("match on the ScalarValue in create_string_column")
+        a = arms(c, sw[0][0])
+        null_blocks = a.get("Null", set())
+        empties = [i_ for i_ in null_blocks for st in c.blocks[i_]["s"] if (st.get("v") or {}).get("r") == "use" and str(((st["v"].get("o") or {}).get("k")) or "") == '""']
+        inst.sites.append("%s: Null arm yields the empty string: %s" % (sp(c, sw[0][0]), bool(empties)))
+        if empties:
+            bad.append(("null-counted-as-empty-string", "ColumnConverter::create_string_column turns a null cell into the empty string (string ColumnValues have no null slot): COUNT <field> counts events whose field is null", sp(c, empties[0])))
+        return bad
+    ctx.run("C09.m", "K10 READS", "agg::ColumnConverter::create_string_column", "a null string cell is not a value for COUNT <field>", m_)
